@@ -25,6 +25,8 @@ class W(cohdl.Entity):
     a = Port.input(Unsigned[4]); b = Port.input(Unsigned[4])
     sel = Port.input(BitVector[2])
     c = Port.input(BitVector[4])
+    i = Port.input(Unsigned[2])
+    ov = Port.output(BitVector[4], default=Null)
     w0 = Port.output(Unsigned[4], default=Null); w1 = Port.output(Unsigned[4], default=Null)
     w2 = Port.output(Unsigned[4], default=Null); w3 = Port.output(Unsigned[4], default=Null)
     s0 = Port.output(Unsigned[3], default=Null); s1 = Port.output(Unsigned[3], default=Null)
@@ -47,6 +49,7 @@ class Gen:
     def __init__(self, rng, depth, allow_await):
         self.rng, self.depth, self.allow_await = rng, depth, allow_await
         self.ntemps = 0
+        self.kind = {}
         self.budget = rng.choice([5, 8, 12])
         self.has_await = False
 
@@ -79,14 +82,23 @@ class Gen:
                 k = self.ntemps
                 self.ntemps += 1
                 r2 = rng.random()
-                if r2 < 0.4:
+                if r2 < 0.35:
                     out.append(("defcall", k, self.helper(rng.choice([1, 2, 2, 3]))))
-                elif r2 < 0.55:
+                    self.kind[k] = "val"
+                elif r2 < 0.5:
                     out.append(("defsig", k))
+                    self.kind[k] = "val"
+                elif r2 < 0.65:
+                    # a reference to a run-time indexed element kept in a name: the index is captured in a temporary
+                    out.append(("defref", k))
+                    self.kind[k] = "ref"
                 else:
                     out.append(("def", k))
+                    self.kind[k] = "val"
             elif r < 0.55 and self.ntemps > 0:
-                out.append(("use", rng.randrange(self.ntemps), rng.randrange(4)))
+                k = rng.randrange(self.ntemps)
+                forms = REF_FORMS if self.kind.get(k) == "ref" else USE_FORMS
+                out.append(("use", k, rng.randrange(4), rng.choice(forms)))
             elif r < 0.72 and d > 0:
                 n = rng.choice([1, 1, 2, 3])
                 arms = [(self.cond(), self.block(d - 1)) for _ in range(n)]
@@ -106,8 +118,12 @@ class Gen:
                 out.append(("await", self.cond()))
                 self.has_await = True
             else:
-                out.append(("use", rng.randrange(max(1, self.ntemps)), rng.randrange(4)) if self.ntemps else ("def", 0))
-                if not self.ntemps:
+                if self.ntemps:
+                    k = rng.randrange(self.ntemps)
+                    out.append(("use", k, rng.randrange(4), rng.choice(REF_FORMS if self.kind.get(k) == "ref" else USE_FORMS)))
+                else:
+                    out.append(("def", 0))
+                    self.kind[0] = "val"
                     self.ntemps = 1
         return out
 
@@ -147,6 +163,14 @@ def systematic():
                         yield ("if", 1, t, e, tail)
     for sh in shapes(2):
         progs.append({"body": [("defcall", 0, sh), ("use", 0, 0)], "async": False})
+    # kept references with a run-time index: defined in a branch / another state, then written through or read
+    for form in REF_FORMS:
+        progs.append({"body": [("defref", 0), ("use", 0, 0, form)], "async": False})
+        progs.append({"body": [("if", [(0, [("defref", 0)])], None), ("use", 0, 1, form)], "async": False})
+        progs.append({"body": [("if", [(0, [("defref", 0)])], [("use", 0, 1, form)])], "async": False})
+        progs.append({"body": [("match", [[("defref", 0)], []], None), ("use", 0, 2, form)], "async": False})
+        progs.append({"body": [("defref", 0), ("await", 1), ("use", 0, 3, form)], "async": True})
+        progs.append({"body": [("defref", 0), ("if", [(1, [("await", 2)])], None), ("use", 0, 3, form)], "async": True})
     # a locally constructed Signal (its alias temporary) defined in one branch / all branches, used afterwards or in another branch
     for form in USE_FORMS[:5]:
         progs.append({"body": [("if", [(0, [("defsig", 0)])], None), ("use", 0, 1, form)], "async": False})
@@ -222,7 +246,7 @@ def analyse(stmts, D=None):
     ok = True
     for s in stmts:
         k = s[0]
-        if k == "def":
+        if k in ("def", "defref"):
             paths = {(sid, d | {s[1]}, m, e) for sid, d, m, e in paths}
         elif k == "defsig":
             _EVER_SIG.add(s[1])
@@ -266,6 +290,8 @@ def analyse(stmts, D=None):
 
 MATCH_PATS = ['"00"', '"01"', '"10"']
 # an intermediate is used whole or through a derived reference (slice, bit, msb, typed view)
+# a kept reference to an element selected by a run-time index: written through or read
+REF_FORMS = ["t{k} <<= self.a[0]", "self.o{j} <<= t{k}"]
 USE_FORMS = ["self.w{j} <<= t{k}", "self.s{j} <<= t{k}[2:0]", "self.o{j} <<= t{k}[1]", "self.o{j} <<= t{k}.msb()",
              "self.g{j} <<= t{k}.signed", "self.w{j} <<= t{k}", "self.s{j} <<= t{k}.bitvector[3:1].unsigned"]
 
@@ -284,6 +310,8 @@ def render(stmts, ind):
             out.append(pad + form.format(j=s[2] % 4, k=s[1]))
         elif k == "defsig":
             out.append(f"{pad}t{s[1]} = Signal[Unsigned[4]](self.a ^ self.b)")
+        elif k == "defref":
+            out.append(f"{pad}t{s[1]} = self.ov[self.i]")
         elif k == "await":
             out.append(f"{pad}await self.c[{s[1]}]")
         elif k == "if":
